@@ -57,8 +57,10 @@ import (
 )
 
 const (
-	probeWait   = 20 * time.Second       // a notification that is due after group_wait (100 ms) must arrive within this
-	probeSettle = 400 * time.Millisecond // after the first arrival: time for a second (wrong) receiver to show up
+	groupWait   = 5 * time.Second        // a posted alert must show up in an aggregation group of the live dispatcher within this …
+	groupPolls  = 12                     // … and only after this many answered polls is "not grouped" believed (the API is responsive, nothing ingests)
+	probeWait   = 40 * time.Second       // once grouped, the notification due after group_wait (100 ms) must arrive within this
+	probeSettle = 300 * time.Millisecond // after the first arrival: time for a second (wrong) receiver to show up
 )
 
 type world struct {
@@ -272,8 +274,24 @@ func (w *world) exec(line string) string {
 			if err != nil || code != 200 {
 				return fmt.Sprintf("posterr:%d:%s", code, hx.Hex(string(resp)))
 			}
+			// liveness gate: is a dispatcher ingesting at all?  (in-process hand-over, microseconds when one runs)
+			grouped, polls := false, 0
+			for deadline := now.Add(groupWait); !grouped && (time.Now().Before(deadline) || polls < groupPolls); time.Sleep(40 * time.Millisecond) {
+				code, body, err := w.get("/api/v2/alerts/groups")
+				if err != nil || code != 200 {
+					if time.Since(now) > 2*groupWait {
+						break
+					}
+					continue
+				}
+				polls++
+				grouped = bytes.Contains(body, []byte(`"alertname":"`+name+`"`))
+				if time.Since(now) > 4*groupWait {
+					break
+				}
+			}
 			var first time.Time
-			for deadline := now.Add(probeWait); time.Now().Before(deadline); time.Sleep(10 * time.Millisecond) {
+			for deadline := time.Now().Add(probeWait); grouped && time.Now().Before(deadline); time.Sleep(10 * time.Millisecond) {
 				w.mu.Lock()
 				n := len(w.got[name])
 				w.mu.Unlock()
